@@ -48,13 +48,22 @@ func txSet(letter byte) [][]byte {
 
 // BuildChain runs a real aggregator for len(pattern)+1 production steps (the first step commits the genesis block).
 func BuildChain(pattern string, initial uint64) (*ProducerChain, error) {
+	return buildChain(pattern, initial, false)
+}
+
+// buildChain: customPayload = the producer (and every node that is to follow it) is configured with
+// CustomPayloadProvider (custompayload.go); the chain then carries Params.CustomPayload.
+func buildChain(pattern string, initial uint64, customPayload bool) (*ProducerChain, error) {
 	key := fmt.Sprintf("%s/%d", pattern, initial)
+	if customPayload {
+		key += "/custom-payload"
+	}
 	chainMu.Lock()
 	defer chainMu.Unlock()
 	if pc, ok := chainCache[key]; ok {
 		return pc, nil
 	}
-	p := Params{InitialHeight: initial}.withDefaults()
+	p := Params{InitialHeight: initial, CustomPayload: customPayload}.withDefaults()
 	env := NewEnv()
 	clock := GenesisTime
 	i := 0
@@ -74,7 +83,7 @@ func BuildChain(pattern string, initial uint64) (*ProducerChain, error) {
 			return nil, fmt.Errorf("producer step %d: %w", s, err)
 		}
 	}
-	_, blocks, f := CheckChain(n.OracleStore(), ChainSpec{ChainID: p.ChainID, Initial: initial, Proposer: n.Signer})
+	_, blocks, f := CheckChain(n.OracleStore(), ChainSpec{ChainID: p.ChainID, Initial: initial, Proposer: n.Signer, Payload: p.PayloadProvider()})
 	if f != nil {
 		return nil, fmt.Errorf("producer chain invalid: %s", f.Msg)
 	}
@@ -191,7 +200,12 @@ func (pc *ProducerChain) Events() []Event {
 // Deliver pushes one event into the real input channel of the manager's SyncLoop.
 func Deliver(m *block.Manager, pc *ProducerChain, e Event, daHeight uint64) {
 	if e.Header {
-		m.VerifHeaderInCh() <- block.NewHeaderEvent{Header: pc.Header(e.Idx), DAHeight: daHeight}
+		h := pc.Header(e.Idx)
+		if pc.Params.CustomPayload {
+			// what both ingress paths do before they push a header event (block/retriever.go, block/store.go)
+			h.SetCustomVerifier(CustomPayloadProvider)
+		}
+		m.VerifHeaderInCh() <- block.NewHeaderEvent{Header: h, DAHeight: daHeight}
 	} else {
 		m.VerifDataInCh() <- block.NewDataEvent{Data: pc.DataAt(e.Idx), DAHeight: daHeight}
 	}
